@@ -12,6 +12,7 @@ import (
 	"regexp"
 	"sort"
 	"strconv"
+	"strings"
 	"sync"
 	"sync/atomic"
 	"time"
@@ -125,6 +126,7 @@ func c13Worker(w *W) {
 	var inHold atomic.Int32
 	var rotDone atomic.Int64
 	var stallArmed atomic.Bool
+	var burstLoads atomic.Int64
 	var seqFrom atomic.Value // time.Time from which only writer 0 keeps writing (one write at a time)
 	log.VerifPointFn = func(name string) {
 		y.fn(name)
@@ -167,6 +169,22 @@ func c13Worker(w *W) {
 			} else if d < 12*time.Millisecond {
 				inHold.Add(-1)
 			}
+		}
+		if mode == "idleburst" && (name == "roll.rotate.closedold" || name == "roll.rotate.created") {
+			// the goroutine that rotates after the silence lingers a little (far below one interval) at each step while
+			// the others, which resumed at the same instant, write
+			// ... at least until every other writer has loaded the current file for its next write (bounded: 50 ms)
+			if name == "roll.rotate.closedold" {
+				from, t := burstLoads.Load(), time.Now()
+				for burstLoads.Load() < from+int64(W-1) && time.Since(t) < 50*time.Millisecond {
+					time.Sleep(100 * time.Microsecond)
+				}
+			}
+			time.Sleep(2 * time.Millisecond)
+			return
+		}
+		if mode == "idleburst" && name == "roll.write.loaded" {
+			burstLoads.Add(1)
 		}
 		if name == "roll.rotate.cas" || name == "roll.rotate.closedold" || name == "roll.rotate.created" {
 			if y.ctr.Add(1)%3 == 0 {
@@ -459,6 +477,11 @@ func c13Worker(w *W) {
 	w.Count("rotations_won", y.counts()["roll.rotate.cas"])
 	w.Count("rotation_attempts", y.counts()["roll.rotate.checked"])
 	if mode == "idleburst" {
+		var secs []string
+		for _, ft := range fileTimes {
+			secs = append(secs, ft.Format("05"))
+		}
+		w.Note("idleburst: files were created in seconds " + strings.Join(secs, ",") + " (started in second " + t0.Format("05") + ")")
 		w.Count("resumptions_after_a_silent_interval", int64(files-1))
 		if files < 3 {
 			w.Inconclusive(fmt.Sprintf("idleburst: only %d files, too few resumptions after a silent interval", files))
